@@ -1,10 +1,11 @@
 package main
 
 import (
-	"strings"
 	"fmt"
 	"go/token"
 	"go/types"
+	"os"
+	"strings"
 
 	"golang.org/x/tools/go/ssa"
 )
@@ -90,6 +91,48 @@ func runC12(c *Ctx) {
 			}
 			r.Check("R12.4", FuncName(fn), fmt.Sprintf("whole property holder assigned #%d", nwhole), st.Pos(), zero, "an owner is given another owner's property chain: what was set on one shows as set on the other")
 		})
+	}
+	// ... nor is an owner that lives behind a pointer (a column, a row, the table) overwritten as a whole: everything
+	// set on it would be replaced at a stroke. (Cells are values by design: copies of a cell are made everywhere.)
+	if pimpl != nil {
+		embedsHolder := func(t types.Type) bool {
+			n := namedOf(t)
+			if n == nil || !inModuleType(n) || n.Obj().Name() == "Cell" {
+				return false
+			}
+			if _, isPtr := t.(*types.Pointer); isPtr {
+				return false
+			}
+			stt, isS := n.Underlying().(*types.Struct)
+			if !isS {
+				return false
+			}
+			for i := 0; i < stt.NumFields(); i++ {
+				if stt.Field(i).Embedded() && namedOf(stt.Field(i).Type()) == pimpl {
+					if _, viaPtr := stt.Field(i).Type().(*types.Pointer); !viaPtr {
+						return true
+					}
+				}
+			}
+			return false
+		}
+		for _, fn := range c.LibFuncs() {
+			eachInstr(fn, func(in ssa.Instruction) {
+				st, ok := in.(*ssa.Store)
+				if ok && os.Getenv("TABDBG") == "whole" && namedOf(st.Val.Type()) != nil {
+					fmt.Fprintf(os.Stderr, "store %s val type %s embeds=%v pimpl=%v\n", st, st.Val.Type(), embedsHolder(st.Val.Type()), pimpl)
+				}
+				if !ok || !embedsHolder(st.Val.Type()) {
+					return
+				}
+				if _, isAl := st.Addr.(*ssa.Alloc); isAl {
+					return // a local being built or copied into
+				}
+				// (a composite literal assigned through a pointer is compiled as "zero the target, then set the listed
+				// fields": the zeroing store is the overwrite)
+				r.Check("R12.4", FuncName(fn), "an existing "+namedOf(st.Val.Type()).Obj().Name()+" is overwritten as a whole", st.Pos(), false, "everything set on that owner (its properties, its callbacks) is replaced by what the new value carries")
+			})
+		}
 	}
 	// every owner answers gets and sets with the one implementation (promoted from the embedded holder): an owner
 	// type that declares its own GetProperty/SetProperty can answer with something other than what was set on it
@@ -301,6 +344,11 @@ func runC12(c *Ctx) {
 					if x.Addr != ssa.Value(ia) {
 						nesc++
 						r.Check("R12.5", FuncName(fn), "address of a columns element stored", rr.Pos(), false, "a pointer into the column slice outlives the next growth (re-allocation)")
+					} else {
+						// a slot of the table's own list is (re)filled: only while the table is being constructed
+						_, base := loadedField(ia.X)
+						_, fresh := unwrap(base, true).(*ssa.Alloc)
+						r.Check("R12.5", FuncName(fn), "a slot of the column list is filled only in the table's constructor", rr.Pos(), fresh, "an existing column is replaced by a new one: what was set on it is gone and handles obtained earlier address a column the table no longer uses")
 					}
 				case *ssa.FieldAddr:
 					// &t.columns[i].f : transient unless that address itself escapes
